@@ -47,6 +47,7 @@ def main():
             if not ctx.failures:
                 raise
             ctx.notes.append("harness aborted after recording failures: " + traceback.format_exc()[-400:])
+        integrity(ctx)
         ctx.stats["driver_request_lines"] = drv.lines
         return common.finish(ctx, aud, getattr(mod, "extra_coverage", lambda c: None)(ctx))
     except common.Infra as e:
@@ -55,6 +56,18 @@ def main():
     except Exception:
         traceback.print_exc()
         return 2
+
+
+def integrity(ctx):
+    """library code must never change a solution the harness built behind its back (a copy that shares storage with its
+    original would): every harness-built solution still carries the values it was given"""
+    try:
+        import plat
+    except Exception:
+        return
+    for b in plat.integrity_failures():
+        ctx.fail("solution-values-changed-behind-its-back", b, b["now_objectives"], "the values the solution was given",
+                 "core.Solution.__deepcopy__ / core.FixedLengthArray (a copy shares storage with its original)")
 
 
 def replay(a, mod):
@@ -81,6 +94,7 @@ def replay(a, mod):
     except Exception:
         if not ctx.failures:
             raise
+    integrity(ctx)
     fl = rec.get("failure")
     if fl:
         same = [f for f in ctx.failures if f.get("kind") == fl.get("kind") and f.get("where") == fl.get("where")]
